@@ -49,7 +49,7 @@ def confirm(seed_dir: Path):
         res["ok"] = rc_clean == 0 and rc_mut != 0 and tests_ok
         # run the checks against the patched tree
         caught = {}
-        cenv = dict(os.environ, ESV_REPO=str(wt), ESV_EVIDENCE_DIR=str(wt / "_evidence"), PYTHONPATH="/verif")
+        cenv = dict(os.environ, ESV_REPO=str(wt), ESV_EVIDENCE_DIR=str(wt / "_evidence"), PYTHONPATH="/verif", ESV_WORKERS=os.environ.get("ESV_WORKERS", "6"))
         for prop in built_props():
             rc_c, out_c = sh([PY, "-m", "esv", "check", prop], cwd="/verif", env=cenv)
             if rc_c != 0:
@@ -80,7 +80,7 @@ def main():
     seeds = sorted(p for p in SEED.glob("C*/[0-9]") if (p / "patch.diff").exists() and (p / "demo.py").exists() and (p / "meta.json").exists())
     if only:
         seeds = [s for s in seeds if s.parent.name in only or f"{s.parent.name}-{s.name}" in only]
-    with ThreadPoolExecutor(max_workers=8) as ex:
+    with ThreadPoolExecutor(max_workers=int(os.environ.get('CONFIRM_JOBS', '4'))) as ex:
         results = list(ex.map(confirm, seeds))
     for r in results:
         own = r["id"].split("-")[0]
